@@ -392,6 +392,11 @@ pub fn run(ctx: &Ctx) -> Report {
       ("dry-run-with-open-writes-nothing", Box::new(|sb: &Sandbox| launcher(sb)), vec!["--input", "in/content", "--output", "out/t.torrent", "--dry-run", "--open"], None, 0, vec![]),
       ("dry-run-with-open-and-force-replaces-nothing", Box::new(|sb: &Sandbox| { launcher(sb); sb.write("out/t.torrent", b"old old old"); }), vec!["--input", "in/content", "--output", "out/t.torrent", "--dry-run", "--open", "--force"], None, 0, vec![]),
       ("open-after-a-real-run-writes-one-file", Box::new(|sb: &Sandbox| launcher(sb)), vec!["--input", "in/content", "--output", "out/t.torrent", "--open"], None, 0, vec!["out/t.torrent"]),
+      // a directory literally called `~` (an argument the shell did not expand, as after `--output=` or in quotes): it is a
+      // directory like any other, and HOME is none of imdl's business
+      ("output-under-a-directory-called-tilde", Box::new(|sb: &Sandbox| { sb.mkdir("~"); sb.mkdir("home"); }), vec!["--input", "in/content", "--output", "~/x.torrent"], None, 0, vec!["~/x.torrent"]),
+      ("output-under-a-directory-called-tilde-occupied", Box::new(|sb: &Sandbox| { sb.write("~/x.torrent", b"there"); sb.mkdir("home"); }), vec!["--input", "in/content", "--output", "~/x.torrent"], None, 1, vec![]),
+      ("input-under-a-directory-called-tilde", Box::new(|sb: &Sandbox| { sb.write("~/stuff", b"tilde stuff"); sb.write("home/stuff", b"home stuff, another length"); }), vec!["--input", "~/stuff"], None, 0, vec!["~/stuff.torrent"]),
       ("show-and-link-do-not-write-more", Box::new(|_sb: &Sandbox| {}), vec!["--input", "in/content", "--output", "out/t.torrent", "--show", "--link"], None, 0, vec!["out/t.torrent"]),
     ];
     let replay_labels: Option<Vec<String>> = super::replay_cases(ctx).map(|rc| rc.iter().filter_map(|v| v.get("scenario").and_then(|s| s.as_str()).map(|s| s.to_string())).collect());
@@ -409,8 +414,11 @@ pub fn run(ctx: &Ctx) -> Report {
         let mut full = vec!["torrent", "create"];
         full.extend(args.iter().copied());
         let mut cmd = Cmd::new(&ctx.imdl, &full).cwd(&sb.root);
-        if full.iter().any(|a| a.ends_with("/-")) {
+        if full.iter().any(|a| a.ends_with("/-") || a.starts_with('~')) {
           cmd = cmd.literal();
+        }
+        if sb.path("home").is_dir() {
+          cmd = cmd.env("HOME", &sb.path("home").to_string_lossy());
         }
         if let Some(b) = stdin {
           cmd = cmd.stdin(b);
